@@ -121,24 +121,27 @@ def _len8(w, seq):
                   'off_bytes, counts, root 0), index = CUMULATIVE end offsets (x2 with cache bits) wide enough, cell data in a '
                   'topological order with every cell once, CRC-32C (little-endian) over everything before it')
 def to_boc_small(w, shape, opt):
-    M = importlib.import_module('pytoniq_core.boc.cell')
     cells, g = SHAPES[shape](w)
-    o = OPTS[opt]
-    root = cells[0]
+    _check_to_boc(w, cells[0], list(cells.values()), OPTS[opt])
+
+
+def _check_to_boc(w, root, cells, o, tag=''):
+    """to_boc(root) against the specification encoding of the DAG `cells` (list of all its distinct cells)"""
+    M = importlib.import_module('pytoniq_core.boc.cell')
 
     def crc(data, *a):
         return w.uf('crc32c', w.bytes_seq(data))
     with w.stub(M, 'crc32c', crc):
         k, out = call(root.to_boc, **o)
-    w.claim(f'to_boc does not raise ({out if k != "ok" else ""})', k == 'ok')
+    w.claim(f'{tag}to_boc does not raise ({out if k != "ok" else ""})', k == 'ok')
     if k != 'ok':
         return
-    order = list(root.order({}).keys()) if not w.symbolic else list(root.order({}).keys())
-    n = len(g)
-    w.claim('every distinct cell exactly once', len(order) == n and all(any(x is c for x in order) for c in cells.values()))
-    w.claim('root first', order[0] is root)
+    order = list(root.order({}).keys())
+    n = len(cells)
+    w.claim(f'{tag}every distinct cell exactly once', len(order) == n and all(any(x is c for x in order) for c in cells))
+    w.claim(f'{tag}root first', order[0] is root)
     pos = {id(c): i for i, c in enumerate(order)}
-    w.claim('references point only to later cells', all(pos[id(k_)] > pos[id(c)] for c in order for k_ in c._vf['kids']))
+    w.claim(f'{tag}references point only to later cells', all(pos[id(k_)] > pos[id(c)] for c in order for k_ in c._vf['kids']))
     n, size, payload, ends, tot = spec_boc(w, order, cells, o, crc)
     has_cache = o['has_cache_bits']
     top = tot * 2 + 1 if has_cache else tot
@@ -150,8 +153,8 @@ def to_boc_small(w, shape, opt):
         off = w.c.concretise(off_b.e, 'off_bytes')
     else:
         off = int(off_b)
-    w.claim('off_bytes in 1..8', 1 <= off <= 8)
-    w.claim('off_bytes wide enough for the total size and every index entry', top < (1 << (8 * off)))
+    w.claim(f'{tag}off_bytes in 1..8', 1 <= off <= 8)
+    w.claim(f'{tag}off_bytes wide enough for the total size and every index entry', top < (1 << (8 * off)))
     hdr = SB.header('generic', size, off, n, 1, 0, tot, [0], o['has_idx'], o['hash_crc32'], has_cache)
     body = hdr
     if o['has_idx']:
@@ -162,14 +165,54 @@ def to_boc_small(w, shape, opt):
             ent, gi = gi.take_front(8 * off)
             v = w.val(ent)
             if has_cache:
-                w.claim(f'index[{i}] == 2 * cumulative end offset (+ cache bit)', w.Or(v == 2 * ends[i], v == 2 * ends[i] + 1))
+                w.claim(f'{tag}index[{i}] == 2 * cumulative end offset (+ cache bit)', w.Or(v == 2 * ends[i], v == 2 * ends[i] + 1))
             else:
-                w.claim(f'index[{i}] == cumulative end offset', v == ends[i])
+                w.claim(f'{tag}index[{i}] == cumulative end offset', v == ends[i])
         body = body + got_idx
     body = body + payload
     if o['hash_crc32']:
         body = body + w.bytes_seq(w.uf('crc32c', body))
-    w.claim('whole output == specification encoding', w.eq_seq(raw, body))
+    w.claim(f'{tag}whole output == specification encoding', w.eq_seq(raw, body))
+
+
+def concrete_len_cell(w, name, n, refs, ident):
+    """real Cell with CONCRETE data length n, symbolic contents, concrete identity hash"""
+    from pytoniq_core.boc.cell import Cell
+    from pytoniq_core.boc.tvm_bitarray import TvmBitarray
+    bits = w.bits(name, n)
+    c = Cell(w.mk_bitarray(TvmBitarray, bits, 1023), list(refs))
+    if w.symbolic:
+        c._hash = bytes([ident]) * 32
+    c._vf = dict(bits=bits, b=n, m8=n % 8, kids=list(refs))
+    return c
+
+
+@obligation('C04.shared_object', 'C04', cases=[{'opt': i} for i in (0, 2, 5)], fuc=[C + 'to_boc', C + 'serialize', C + 'order'],
+            assumes=[CRCASSUME],
+            descr='history independence of to_boc: ONE cell object (with a child) is serialised inside two different bags, where it and '
+                  'its child get different cell numbers, then on its own, then in the first bag again: each output equals the '
+                  'specification encoding of that bag (state kept on a cell object between calls - serialised bytes with the '
+                  'reference indexes of an earlier bag - would show here); contents symbolic')
+def shared_object(w, opt):
+    payload = concrete_len_cell(w, 'payload', 13, [], 1)
+    mid = concrete_len_cell(w, 'mid', 8, [payload], 2)
+    x, y = concrete_len_cell(w, 'x', 5, [], 3), concrete_len_cell(w, 'y', 16, [], 4)
+    bag1 = concrete_len_cell(w, 'root1', 3, [x, y, mid], 5)          # mid late: numbers 3 / 4
+    bag2 = concrete_len_cell(w, 'root2', 7, [mid, x], 6)             # mid early: numbers 1 / 2
+    for nm, root, cells in (('first bag: ', bag1, [bag1, x, y, mid, payload]), ('second bag: ', bag2, [bag2, mid, x, payload]),
+                            ('the shared cell alone: ', mid, [mid, payload]), ('first bag again: ', bag1, [bag1, x, y, mid, payload])):
+        _check_to_boc(w, root, cells, OPTS[opt], nm)
+
+
+@obligation('C04.maxcell', 'C04', cases=[{'n': n, 'opt': i} for n in (1015, 1016, 1017, 1023) for i in (0, 5)],
+            fuc=[C + 'to_boc', C + 'serialize'], assumes=[CRCASSUME],
+            descr='cells at the upper end of the data capacity (1015, 1016, 1017, 1023 bits: 127 / 128 data bytes with and without a '
+                  'completion tag) with a child and a sibling: to_boc output == specification encoding; contents symbolic')
+def maxcell(w, n, opt):
+    leaf = concrete_len_cell(w, 'leaf', 9, [], 1)
+    big = concrete_len_cell(w, 'big', n, [leaf], 2)
+    root = concrete_len_cell(w, 'root', 3, [big, leaf], 3)
+    _check_to_boc(w, root, [root, big, leaf], OPTS[opt])
 
 
 @obligation('C04.widths', 'C04', cases=[{'opt': i} for i in range(len(OPTS))], fuc=[C + 'to_boc', C + 'serialize'],
